@@ -32,14 +32,18 @@ ASSUMPTIONS = ['the harness renders the same record at both origins']
 
 FIXED_ZONES = ['UTC', 'Etc/GMT-7', 'Etc/GMT+5', 'Etc/GMT-12', 'Etc/GMT+11',
                'Etc/GMT-1', 'Africa/Lagos', 'Asia/Brunei', 'Asia/Kolkata',
-               'Asia/Tokyo', 'America/Phoenix', 'Africa/Johannesburg']
+               'Asia/Tokyo', 'America/Phoenix', 'Africa/Johannesburg',
+               # offsets that are not whole hours (nor whole steps)
+               'Asia/Yangon', 'Australia/Darwin', 'Asia/Kabul', 'Asia/Kolkata']
 # geographic zones whose offset has been constant for decades (and over the
 # whole generated date range, 2013-2018): fixed-offset in effect, but their
 # tz database entries start with a local-mean-time era
 GEOGRAPHIC_OFFSETS = {'Africa/Lagos': 3600, 'Asia/Brunei': 8 * 3600,
                       'Asia/Kolkata': 19800, 'Asia/Tokyo': 9 * 3600,
                       'America/Phoenix': -7 * 3600,
-                      'Africa/Johannesburg': 2 * 3600}
+                      'Africa/Johannesburg': 2 * 3600,
+                      'Asia/Yangon': 23400, 'Australia/Darwin': 34200,
+                      'Asia/Kabul': 16200}
 
 
 def zone_offset(name):
@@ -68,7 +72,7 @@ def cases(draw, tier):
     else:
         record = draw(gen_truth.truth_records(
             noise=(kind == 'truth-noisy'), dts=dts, min_storms=3,
-            max_storms=6))
+            max_storms=6, gaps=True))
     record['tz'] = draw(st.sampled_from(FIXED_ZONES))
     record['grid'] = draw(st.sampled_from([1.0, 0.5, 0.25, 0.1]))
     record['shift_steps'] = draw(st.sampled_from(SHIFTS))
